@@ -2050,7 +2050,9 @@ class UPPDDLReader:
                     and len(metric) == 1
                     and metric[0].value == "total-time"
                 ):
-                    problem.add_quality_metric(up.model.metrics.MinimizeMakespan())
+                    problem.add_quality_metric(
+                        up.model.metrics.MinimizeMakespan(self._env)
+                    )
                 else:
                     metric_exp = self._parse_exp(
                         problem, None, types_map, {}, metric, problem_str
@@ -2104,25 +2106,25 @@ class UPPDDLReader:
                                     use_plan_length = False
                         if use_plan_length:
                             problem.add_quality_metric(
-                                up.model.metrics.MinimizeSequentialPlanLength()
+                                up.model.metrics.MinimizeSequentialPlanLength(self._env)
                             )
                         else:
                             problem.add_quality_metric(
                                 up.model.metrics.MinimizeActionCosts(
-                                    costs, self._em.Int(0)
+                                    costs, self._em.Int(0), self._env
                                 )
                             )
                     else:
                         if optimization == "minimize":
                             problem.add_quality_metric(
                                 up.model.metrics.MinimizeExpressionOnFinalState(
-                                    metric_exp
+                                    metric_exp, self._env
                                 )
                             )
                         elif optimization == "maximize":
                             problem.add_quality_metric(
                                 up.model.metrics.MaximizeExpressionOnFinalState(
-                                    metric_exp
+                                    metric_exp, self._env
                                 )
                             )
         return problem
